@@ -477,6 +477,20 @@ pub fn make_src(img: &Img, pt: Pt) -> Backing {
                 let r = rng.next_u64().to_ne_bytes();
                 chunk.copy_from_slice(&r[..chunk.len()]);
             }
+            // float images: a good share of the never-to-be-read neighbours are NaN / inf,
+            // so that even a neighbour "weighted by zero" shows in the result
+            if pt.comp_kind() == 3 {
+                let specials = [f32::NAN, f32::INFINITY, f32::NEG_INFINITY, -f32::NAN];
+                let start = b.g.off;
+                let mut i = start;
+                while i + 4 <= b.vec.len() {
+                    let r = rng.next_u64();
+                    if r % 3 == 0 {
+                        b.vec[i..i + 4].copy_from_slice(&specials[((r >> 8) % 4) as usize].to_ne_bytes());
+                    }
+                    i += 4;
+                }
+            }
         }
         let data = content_bytes(pt, g.w as usize * g.h as usize, g.w as usize, img.content, img.content_seed);
         b.set_logical(&data);
